@@ -34,6 +34,8 @@ def run(ctx):
     ctx.do(rule_forward)
     ctx.do(rule_version_in_scope)
     ctx.do(rule_detect)
+    from .hidden_state import rule_no_hidden_state
+    ctx.do(rule_no_hidden_state, "C14.history-independence")
 
 
 def iter_exact_calls(prog, cg, include_cha_unique=False):
